@@ -14,13 +14,14 @@ def sh(cmd, **kw):
 def main():
     pid = sys.argv[1]
     src = '/tmp/seed_out/' + pid
-    tier = 'quick'; do_check = True; name = pid
+    tier = 'quick'; do_check = True; name = pid; wt_check = False
     a = sys.argv[2:]
     while a:
         if a[0] == '--src': src = a[1]; a = a[2:]
         elif a[0] == '--tier': tier = a[1]; a = a[2:]
         elif a[0] == '--name': name = a[1]; a = a[2:]
         elif a[0] == '--no-check': do_check = False; a = a[1:]
+        elif a[0] == '--worktree-check': wt_check = True; a = a[1:]
         else: a = a[1:]
     patch = os.path.join(src, 'patch.diff')
     meta = json.load(open(os.path.join(src, 'meta.json')))
@@ -62,8 +63,13 @@ def main():
             rc0, o0 = build_and_run('/repo', '/repo/_build/lib/libasls.a', 'without')
             demo_res = {'with_change': {'exit': rc1, 'tail': o1}, 'without_change': {'exit': rc0, 'tail': o0}}
         res['demo'] = demo_res
+        if do_check and wt_check:
+            c = sh('cd /verif && VERIF_REPO=%s VERIF_BUILD=%s/_vb ./check %s --tier %s' % (wt, wt, pid, tier))
+            lines = [l for l in c.stdout.splitlines() if l.startswith('VIOLATION') or l.startswith('   sig=') or l.startswith(pid + ' ')]
+            res['check'] = {'cmd': 'VERIF_REPO=<scratch worktree with patch.diff applied> ./check %s --tier %s' % (pid, tier), 'exit': c.returncode, 'detected': c.returncode == 1, 'output': lines[:8]}
+            do_check = False
     finally:
-        sh('rm -rf %s/_build; git -C /repo worktree remove --force %s' % (wt, wt))
+        sh('rm -rf %s/_build %s/_vb; git -C /repo worktree remove --force %s' % (wt, wt, wt))
     if do_check:
         st = sh('git -C /repo status --porcelain --untracked-files=no')
         if st.stdout.strip():
